@@ -236,7 +236,21 @@ func run(c *h.Ctx, cs Case) {
 		} else {
 			opt = delegation.WithEncryptedMetaString("secret", string(cs.Plain), cs.Key)
 		}
-		tk, err := delegation.New(iss, aud, command.MustParse("/foo"), policy.Policy{}, opt, delegation.WithMeta("plain", "visible"), delegation.WithEncryptedMetaBytes("secret2", second(cs.Plain), cs.Key))
+		dopts := []delegation.Option{opt, delegation.WithMeta("plain", "visible"), delegation.WithEncryptedMetaBytes("secret2", second(cs.Plain), cs.Key)}
+		tk, err := delegation.New(iss, aud, command.MustParse("/foo"), policy.Policy{}, dopts...)
+		// the same option VALUES applied to a second token (one options slice, several recipients): another
+		// encryption of the same value - it must differ from the first
+		if tkb, errb := delegation.New(iss, iss, command.MustParse("/foo/bar"), policy.Policy{}, dopts...); err == nil && errb == nil {
+			for _, name := range []string{"secret", "secret2"} {
+				a, _ := tk.Meta().GetBytes(name)
+				b, _ := tkb.Meta().GetBytes(name)
+				if len(a) > 0 && bytes.Equal(a, b) {
+					c.Fail("C19/option-reuse-same-ciphertext/dlg", "two delegations built from the same option values carry byte-identical ciphertexts (same nonce) for %q", name)
+				}
+				noteNonce(c, b)
+			}
+			c.P.Class("option-reused")
+		}
 		if err != nil {
 			c.Fail("C19/option-rejects-valid", "delegation with encrypted meta rejected: %v", err)
 			return
@@ -266,7 +280,19 @@ func run(c *h.Ctx, cs Case) {
 		} else {
 			opt = invocation.WithEncryptedMetaString("secret", string(cs.Plain), cs.Key)
 		}
-		tk, err := invocation.New(iss, aud, command.MustParse("/foo"), []cid.Cid{}, opt, invocation.WithEncryptedMetaBytes("secret2", second(cs.Plain), cs.Key))
+		iopts := []invocation.Option{opt, invocation.WithEncryptedMetaBytes("secret2", second(cs.Plain), cs.Key)}
+		tk, err := invocation.New(iss, aud, command.MustParse("/foo"), []cid.Cid{}, iopts...)
+		if tkb, errb := invocation.New(iss, iss, command.MustParse("/foo/bar"), []cid.Cid{}, iopts...); err == nil && errb == nil {
+			for _, name := range []string{"secret", "secret2"} {
+				a, _ := tk.Meta().GetBytes(name)
+				b, _ := tkb.Meta().GetBytes(name)
+				if len(a) > 0 && bytes.Equal(a, b) {
+					c.Fail("C19/option-reuse-same-ciphertext/inv", "two invocations built from the same option values carry byte-identical ciphertexts (same nonce) for %q", name)
+				}
+				noteNonce(c, b)
+			}
+			c.P.Class("option-reused")
+		}
 		if err != nil {
 			c.Fail("C19/option-rejects-valid", "invocation with encrypted meta rejected: %v", err)
 			return
